@@ -118,6 +118,12 @@ PROPERTIES["C07"] = dict(
           functions=["a5::core::cell_info::get_num_children", "a5::core::cell_info::get_num_cells"], bounds="c−p ≤ 8 (the property's 4^8 cap)"),
         H("c07_children_d1", "c07", [Q, T], "∀ valid cell(1..28): children(c,r+1): 4 entries, pairwise distinct (symbolic index pair), increasing, resolution r+1, parent=c, canonical; count = get_num_children",
           functions=HIER, bounds="fan-out 4; loops 1×1×4 (unwinding assertions on)", unwindset=ch_unwind(1, 1, 4), assumes=[VALID], deps=["oracle_valid_equiv"], timeout=1500, mem_gb=24),
+        H("c07_children_d2_r1", "c07", [T], "∀ quintant cell (resolution 1, all faces × quintants), ∀ i<16: children(c,3) has 16 entries and [i] = spec_child(spec_child(c,i>>2),i&3) — the jump from the non-Hilbert levels into the curve in one call",
+          functions=HIER, bounds="fan-out 16; loops 1×1×16 (unwinding assertions on); parent resolution 1", unwindset=ch_unwind(1, 1, 16), assumes=[VALID, "get_resolution ↦ res_stub"], deps=["oracle_res_equiv", "c07_children_d1"], timeout=2400, mem_gb=40, mem_est=20),
+        H("c07_children_d2_r27", "c07", [T], "∀ valid cell of resolution 27, ∀ i<16: children(c,29) has 16 entries and [i] = spec_child(spec_child(c,i>>2),i&3) — two levels in one call at the deepest levels",
+          functions=HIER, bounds="fan-out 16; loops 1×1×16 (unwinding assertions on); parent resolution 27", unwindset=ch_unwind(1, 1, 16), assumes=[VALID, "get_resolution ↦ res_stub"], deps=["oracle_res_equiv", "c07_children_d1"], timeout=2400, mem_gb=40, mem_est=22),
+        H("c07_children_d2_r2", "c07", [T], "∀ valid cell of resolution 2, ∀ i<16: children(c,4) has 16 entries and [i] = spec_child(spec_child(c,i>>2),i&3) — two levels in one call at the first Hilbert level",
+          functions=HIER, bounds="fan-out 16; loops 1×1×16 (unwinding assertions on); parent resolution 2", unwindset=ch_unwind(1, 1, 16), assumes=[VALID, "get_resolution ↦ res_stub"], deps=["oracle_res_equiv", "c07_children_d1"], timeout=2400, mem_gb=40, mem_est=22),
         H("c07_world", "c07", [Q, T], "world cell: 12 children at r=0, 60 at r=1: distinct, right resolution, canonical, parent = world / the right base cell; get_res0_cells agrees",
           functions=HIER + ["a5::core::serialization::get_res0_cells"], bounds="concrete input; fan-out 12 and 60 fully unwound", exhaustive=True, timeout=1500),
         H("c07_cover_hi", "c07", [Q, T], "∀ valid cell y, r≥3: y = children(parent(y))[s&3]", functions=HIER, bounds="none on y; loops 1×1×4",
